@@ -67,7 +67,10 @@ def rnd_fix(v, p: int, mode: str):
     else:  # RTE
         up = z3.And(inexact, odd)
     r = (q + z3.If(up, _bvc(1), _bvc(0))) << sh
-    return FixV(z3.If(neg, -r, r), v.scale, v.bits + 1)
+    # static magnitude bound, read NON-strictly (|bv| <= 2^bits; every rule of fpydialect.FixV is valid under this
+    # reading): every mode is monotone and 2^bits is representable at any precision, so |v| <= 2^bits gives
+    # |rnd(v)| <= 2^bits -- rounding does not cost a bit (fpydialect.rne_fix adds one, which is merely pessimistic)
+    return FixV(z3.If(neg, -r, r), v.scale, v.bits)
 
 
 def rnd_frac(q: Fraction, p: int, mode: str) -> Fraction:
